@@ -60,8 +60,14 @@ HDR = {
     "NoColon": [b"X-Foo bar", b"Content-Length 3", b"x", b"Transfer-Encoding chunked"],
     "ConnClose": [b"Connection: close", b"connection: Close", b"Connection:  close\t", b"CONNECTION:CLOSE"],
     "ConnKeep": [b"Connection: keep-alive", b"Connection: Keep-Alive", b"connection:keep-alive "],
+    # fields without any meaning for message framing (RFC 9112 6), among them names that had one in obsolete
+    # protocols (hixie-76 websocket keys), hop-by-hop and body-describing fields, look-alikes of the framing fields
     "Plain": [b"X-Foo: bar", b"Host: example.com", b"Accept: */*", b"X-Empty:", b"Cookie: a=b; c=d",
-              b"X-Obs: caf\xe9", b"X-Tab:\ta\tb", b"Content-Type: text/plain"],
+              b"X-Obs: caf\xe9", b"X-Tab:\ta\tb", b"Content-Type: text/plain",
+              b"Sec-WebSocket-Key1: 4 @1  46546xW%0l 1 5", b"Sec-WebSocket-Key2: 12998 5 Y3 1  .P00", b"Upgrade: WebSocket",
+              b"Keep-Alive: timeout=5, max=100", b"Proxy-Connection: keep-alive", b"TE: trailers, chunked", b"Trailer: X-T",
+              b"Content-Encoding: chunked", b"Content-Range: bytes 0-1/2", b"Range: bytes=0-0", b"Content-MD5: Q2h1Y2s=",
+              b"X-Content-Length: 7", b"X-Transfer-Encoding: chunked", b"Content-Length-X: 9", b"Expect: 100-continue"],
     "Under": [b"X_Foo: bar", b"Content_Length: 3", b"Transfer_Encoding: chunked", b"X_Forwarded_For: 1.2.3.4"],
 }
 # kinds whose value may be padded (PAD bytes appended to the value / leading zeros for CL)
